@@ -254,11 +254,11 @@ def check_sets(case):
             img = [ref.sym_perm(g, p) for p in perms]
             for off in (0, 1):
                 arg = "_".join("".join(str(v + off) for v in p) for p in img)
-                buf = io.StringIO()
-                with contextlib.redirect_stdout(buf):
-                    pcli.get_lex_min(argparse.Namespace(basis=arg))
-                if buf.getvalue().strip() != cli_want:
-                    return BAD("cli_lexmin", {"arg": arg, "got": buf.getvalue().strip(), "want": cli_want})
+                from ..lib import run_cli
+
+                got_cli = run_cli(["lexmin", arg]).strip()
+                if got_cli != cli_want:
+                    return BAD("cli_lexmin", {"arg": arg, "got": got_cli, "want": cli_want})
     return OK(len(want_sets) == 8, f"set_orbit{len(want_sets)}")
 
 
